@@ -154,6 +154,7 @@ theorem tracker_step (acl : Bool) (s : Bytes) (isn : Nat) (t : Tracker) (h : Lis
 structure FlowInv (acl : Bool) (s : Bytes) (isn : Nat) (f : Flow) (h : List SegD) (D : Bytes) : Prop where
   st : f.state ≠ .unknown
   ig : f.ignoreData = false
+  rc : f.recEnd = none          -- no recovery handler bound to the direction (never enabled, or it has removed itself)
   ti : TrInv acl s isn f.tr h D
 
 theorem updateState_not_unknown (f : Flow) (p : Pkt) (h : f.state ≠ .unknown) : (f.updateState p).state ≠ .unknown := by
@@ -168,20 +169,22 @@ theorem updateState_not_unknown (f : Flow) (p : Pkt) (h : f.state ≠ .unknown) 
         · simp
         · exact h
 
-theorem stepIn_some (acl : Bool) (f : Flow) (p : Pkt) (d : Bytes) (hi : (f.pre p).ignoreData = false) (h : p.payload = some d) :
+theorem stepIn_some (acl : Bool) (f : Flow) (p : Pkt) (d : Bytes) (hi : (f.pre p).ignoreData = false)
+    (hr : (f.pre p).recEnd = none) (h : p.payload = some d) :
     (f.stepIn acl p).tr = clearIf ((processPayload (f.pre p).tr p.dataSeq d).2 && acl) (processPayload (f.pre p).tr p.dataSeq d).1 ∧
     (f.stepIn acl p).state = (f.pre p).state ∧ (f.stepIn acl p).ignoreData = (f.pre p).ignoreData ∧
+    (f.stepIn acl p).recEnd = (f.pre p).recEnd ∧
     f.handed p = (if (processPayload (f.pre p).tr p.dataSeq d).2 then some (processPayload (f.pre p).tr p.dataSeq d).1.payload else none) := by
   unfold Flow.stepIn Flow.handed
-  rw [processPacket_some f p d hi h]
+  rw [processPacket_some f p d hi hr h]
   simp only [clearIf, clearPayload]
-  cases (processPayload (f.pre p).tr p.dataSeq d).2 && acl <;> (refine ⟨?_, ?_, ?_, ?_⟩ <;> first | rfl | trivial)
+  cases (processPayload (f.pre p).tr p.dataSeq d).2 && acl <;> (refine ⟨?_, ?_, ?_, ?_, ?_⟩ <;> first | rfl | trivial)
 
 /-- one packet of the direction on a flow whose tracker, as `update_state` leaves it, satisfies the invariant -/
 theorem flow_step_core (acl : Bool) (s : Bytes) (isn : Nat) (f : Flow) (h : List SegD) (D : Bytes) (p : Pkt)
     (hs : s.length < 2147483648) (hisn : isn < 4294967296)
-    (hst : (f.pre p).state ≠ .unknown) (hig : (f.pre p).ignoreData = false) (ti : TrInv acl s isn (f.pre p).tr h D)
-    (hp : pktOK s isn h p) :
+    (hst : (f.pre p).state ≠ .unknown) (hig : (f.pre p).ignoreData = false) (hrc : (f.pre p).recEnd = none)
+    (ti : TrInv acl s isn (f.pre p).tr h D) (hp : pktOK s isn h p) :
     (∃ D', FlowInv acl s isn (f.stepIn acl p) (dirStep s isn h p) D') ∧
     f.handed p = expectedHanded1 acl s isn h p := by
   unfold pktOK at hp
@@ -194,17 +197,17 @@ theorem flow_step_core (acl : Bool) (s : Bytes) (isn : Nat) (f : Flow) (h : List
       unfold Flow.handed; rw [processPacket_none f p hpl]; rfl
     rw [e1, e2]
     simp only [Nat.lt_irrefl, if_false]
-    exact ⟨⟨D, ⟨hst, hig, ti⟩⟩, trivial⟩
+    exact ⟨⟨D, ⟨hst, hig, hrc, ti⟩⟩, trivial⟩
   | some d =>
     rw [hpl] at hp
-    obtain ⟨s1, s2, s3, s4⟩ := stepIn_some acl f p d hig hpl
+    obtain ⟨s1, s2, s3, s5, s4⟩ := stepIn_some acl f p d hig hrc hpl
     have hq : seqOf isn (segOf isn (frontier (h.map SegD.seg) s.length) p d).off = p.dataSeq :=
       seqOf_offOf isn _ p.dataSeq (dataSeq_lt p)
     obtain ⟨⟨D', hD'⟩, hfire, hpay⟩ := tracker_step acl s isn (f.pre p).tr h D
       (segOf isn (frontier (h.map SegD.seg) s.length) p d) p.dataSeq hs hisn ti hp hq
     have hgd : (segOf isn (frontier (h.map SegD.seg) s.length) p d).data = d := rfl
     simp only [hgd] at hD' hfire hpay
-    refine ⟨⟨D', ⟨by rw [s2]; exact hst, by rw [s3]; exact hig, by rw [s1]; exact hD'⟩⟩, ?_⟩
+    refine ⟨⟨D', ⟨by rw [s2]; exact hst, by rw [s3]; exact hig, by rw [s5]; exact hrc, by rw [s1]; exact hD'⟩⟩, ?_⟩
     rw [s4]
     by_cases hf : (processPayload (f.pre p).tr p.dataSeq d).2 = true
     · simp only [hf, if_true, hfire.1 hf, hpay hf]
@@ -221,14 +224,14 @@ theorem flow_step (acl : Bool) (s : Bytes) (isn : Nat) (f : Flow) (h : List SegD
   have hst : (f.pre p).state ≠ .unknown := by rw [q1]; exact updateState_not_unknown f p inv.st
   have hig : (f.pre p).ignoreData = false := by rw [q6]; exact inv.ig
   have htr : (f.pre p).tr = f.tr := by rw [q5]; exact updateState_tr f p (Or.inl inv.st)
-  exact flow_step_core acl s isn f h D p hs hisn hst hig (by rw [htr]; exact inv.ti) hp
+  exact flow_step_core acl s isn f h D p hs hisn hst hig (by rw [pre_recEnd]; exact inv.rc) (by rw [htr]; exact inv.ti) hp
 
 /-- the segment that takes a direction out of `UNKNOWN` — the direction's SYN (or SYN+ACK), before which the flow has
     reassembled nothing: the stream starts one past its sequence number, and the data it carries (TCP Fast Open) is
     the first arrival -/
 theorem flow_step_syn (acl : Bool) (s : Bytes) (f : Flow) (a : Nat) (p : Pkt)
     (hs : s.length < 2147483648)
-    (hu : f.state = .unknown) (hig : f.ignoreData = false) (ht : f.tr = Tracker.init a)
+    (hu : f.state = .unknown) (hig : f.ignoreData = false) (hrc : f.recEnd = none) (ht : f.tr = Tracker.init a)
     (h1 : p.syn = true) (h2 : p.rst = false) (h3 : p.fin = false) (hp : pktOK s (wrap32 (p.seq + 1)) [] p) :
     (∃ D', FlowInv acl s (wrap32 (p.seq + 1)) (f.stepIn acl p) (dirStep s (wrap32 (p.seq + 1)) [] p) D') ∧
     f.handed p = expectedHanded1 acl s (wrap32 (p.seq + 1)) [] p := by
@@ -238,7 +241,7 @@ theorem flow_step_syn (acl : Bool) (s : Bytes) (f : Flow) (a : Nat) (p : Pkt)
   have hig' : (f.pre p).ignoreData = false := by rw [q6]; exact hig
   have htr : (f.pre p).tr = Tracker.init (wrap32 (p.seq + 1)) := by
     rw [q5, updateState_tr_syn f p hu h1 h2 h3, ht]; rfl
-  refine flow_step_core acl s _ f [] [] p hs (by unfold wrap32; omega) hst hig' ?_ hp
+  refine flow_step_core acl s _ f [] [] p hs (by unfold wrap32; omega) hst hig' (by rw [pre_recEnd]; exact hrc) ?_ hp
   rw [htr]
   exact ⟨rfl, trivial, fun _ => rfl, fun _ => rfl⟩
 
